@@ -1,15 +1,21 @@
 """C08 - Packet codec: own output re-parses byte-exactly; foreign input normalises once (reader/writer agreement).
 
 For EVERY class that has both `parse` and `__bytearray__` (own or through its MRO) the reader sequence (E2) and the writer byte
-terms (E1) are extracted on every path and checked:
-  C08.a consume-what-you-read: every slice read from the buffer is consumed (by a `del` of at least that width) before the next read
+terms (E1) are extracted on every path and checked.  Every rule is decided on interpreter values / events / path facts (never on
+`ast.unparse` text, local names or statement shapes):
+  C08.a consume-what-you-read: every slice read from the buffer is consumed (by a `del` of at least that width, a pop, or one del that
+        the pending offset reads tile) before the next read
   C08.b alias-then-consume: after the input buffer was stored without copying, nothing may consume from it
-  C08.c field order: the fields the reader fills, in order, are the fields the writer emits, in order (with their fixed widths)
-  C08.d remainder arithmetic: a trailing `header.length - k` read must leave out exactly what was consumed before it
+  C08.c field order: the fields the reader fills, in stream order, are the fields the writer emits, in order (with their fixed widths);
+        key material integers are taken off the buffer in the declared order
+  C08.d remainder arithmetic: a trailing `header.length - k` read must leave out exactly what was consumed before it (linear forms)
   C08.e length-covers-what-follows: each length the writer emits is followed by exactly the octets it counts
-  C08.f text codec symmetry: a text field is written with the codec it is read with
-  C08.g dispatch table: every packet tag has a class (or is deliberately opaque); versioned classes define both methods
-  C08.h update-after-mutation: library code that builds or changes a packet body recomputes its header length afterwards
+  C08.f text codec symmetry: a text field is written with the codec it is read with, per reader path; a remembered fallback codec is
+        the one the writer uses in that object state
+  C08.g dispatch: every packet tag has a class, versioned classes define both methods; the dispatcher builds the object from the registry
+        entry of (root, type[, version]) and falls back to the opaque entry; opaque payload verbatim; parse errors become PGPError
+  C08.h update-after-mutation: library code that builds or changes a packet body recomputes its header length after the last change on
+        every path; nested lengths before the packet length; the length formulas
   C08.i header length-of-length follows the length also for parsed old-format headers (with C09.2)
 """
 import ast
@@ -517,6 +523,8 @@ def reader_text_fields(prog, c):
                     decs.append((text, ft[:-len('.decode')], (args, kw)))
                 elif ft == 'chr' and len(args) == 1 and not kw:
                     decs.append((text, args[0], [('latin-1', False)]))        # chr(octet) is the latin-1 reading of one octet
+                elif ft.endswith('.hex') and not args and not kw:
+                    decs.append((text, 'hexlify(%s)' % ft[:-len('.hex')], [('ascii', False)]))      # octets.hex(): hex digits, ASCII only
                 elif ft == 'str' and args and (len(args) >= 2 or 'encoding' in kw):
                     decs.append((text, args[0], (args[1:], kw)))             # str(octets, codec) is octets.decode(codec)
                 elif args:
@@ -577,6 +585,8 @@ def writer_text_fields(prog, c, wf, bind=None):
         for ft, args, kw, line, node in s.calls:
             if ft.endswith('.encode') and ft.startswith(p0 + '.') and '.' not in ft[len(p0) + 1:-len('.encode')]:
                 enc.setdefault(ft[len(p0) + 1:-len('.encode')].lstrip('_'), set()).add(_codec_arg(args, kw, wf.where))
+            elif ft in ('bytes.fromhex', 'bytearray.fromhex') and len(args) == 1 and args[0].startswith(p0 + '.') and '.' not in args[0][len(p0) + 1:]:
+                enc.setdefault(args[0][len(p0) + 1:].lstrip('_'), set()).add('ascii')        # hex digits back to octets
             elif ft in ('bytes', 'bytearray') and args and (len(args) >= 2 or 'encoding' in kw) and args[0].startswith(p0 + '.') and \
                     '.' not in args[0][len(p0) + 1:]:
                 # bytes(self.f, codec) is self.f.encode(codec)
